@@ -9,27 +9,13 @@
 (* the same operator judges the reference model here (S) and the real      *)
 (* code's results in Trace_C14 (V).                                        *)
 (***************************************************************************)
-EXTENDS Pct, TLC
+EXTENDS Pct, Tokens, TLC
 
 CONSTANTS MaxLen,      \* inputs are all token sequences of length 0..MaxLen
           NTok         \* ... over the first NTok tokens of Tok
 
-\* Token alphabet (from the property's own wording), each token a code-point sequence.
-Tok == <<
-  <<97>>, <<66>>, <<52>>, <<233>>, <<32>>,                       \* a B 4 e-acute space
-  <<47>>, <<63>>, <<35>>, <<38>>, <<61>>, <<64>>, <<58>>, <<43>>, \* / ? # & = @ : +
-  <<37,52,49>>, <<37,55,101>>, <<37,67,51,37,65,57>>,             \* %41 %7e %C3%A9
-  <<37,51,52>>, <<37,51,49>>, <<37,50,48>>,                       \* %34 %31 %20
-  <<37,50,70>>, <<37,51,70>>, <<37,50,51>>, <<37,50,54>>,         \* %2F %3F %23 %26
-  <<37,51,68>>, <<37,52,48>>, <<37,51,65>>, <<37,50,53>>,         \* %3D %40 %3A %25
-  <<37,50,66>>, <<37,50,53,52,49>>, <<37,69,57>>,                 \* %2B %2541 %E9
-  <<37,48,48>>, <<37,48,65>>, <<37,55,70>>, <<37,67,50,37,56,53>>, \* %00 %0A %7F %C2%85
-  <<37>>, <<37,52>>, <<37,122,122>>,                              \* % %4 %zz
-  <<37,99,51,37,97,57>>, <<37,50,102>>, <<37,69,50,37,56,50>>     \* %c3%a9 %2f %E2%82 (truncated)
->>
 Funs == Kinds \cup {"quote", "upper"}
 
-RenderToks(ix) == FlattenSeq([i \in 1..Len(ix) |-> Tok[ix[i]]])
 Inputs == UNION {[1..n -> 1..NTok] : n \in 0..MaxLen}
 
 \* ----------------------------------------------------------------- contract
